@@ -39,6 +39,11 @@ func Insert[S ~[]E, E any](slice *S, index int, value E) {
 // InsertSlice inserts a slice of values at a given index in the slice and
 // shifts all following values to the right.
 func InsertSlice[S ~[]E, E any](slice *S, index int, values S) {
+	if len(values) <= cap(*slice)-len(*slice) {
+		// Inserting in place: the values may be a part of the slice itself,
+		// and shifting the tail would change them before they are copied.
+		values = append(S(nil), values...)
+	}
 	*slice = append(*slice, values...)
 	copy((*slice)[index+len(values):], (*slice)[index:])
 	copy((*slice)[index:], values)
